@@ -115,33 +115,37 @@ func (r *RibEntry) updateNexthopsEnc() {
 	if r.Name != nil {
 		FibStrategyTable.ClearNextHopsEnc(r.Name)
 
-		// All routes including parents if needed
-		routes := append([]*Route{}, r.routes...)
+		// Only a prefix with routes of its own has a FIB entry; names below
+		// a prefix without routes are covered by longest-prefix match.
+		if len(r.routes) > 0 {
+			// All routes including parents if needed
+			routes := append([]*Route{}, r.routes...)
 
-		// Get all possible nexthops for parents that are inherited,
-		// unless we have the capture flag set
-		if !r.HasCaptureRoute() {
-			for entry := r; entry != nil; entry = entry.parent {
-				for _, route := range entry.routes {
-					if route.HasChildInheritFlag() {
-						routes = append(routes, route)
+			// Get all possible nexthops for parents that are inherited,
+			// unless we have the capture flag set
+			if !r.HasCaptureRoute() {
+				for entry := r; entry != nil; entry = entry.parent {
+					for _, route := range entry.routes {
+						if route.HasChildInheritFlag() {
+							routes = append(routes, route)
+						}
 					}
 				}
 			}
-		}
 
-		// Find minimum cost route per nexthop
-		minCostRoutes := make(map[uint64]uint64) // FaceID -> Cost
-		for _, route := range routes {
-			cost, ok := minCostRoutes[route.FaceID]
-			if !ok || route.Cost < cost {
-				minCostRoutes[route.FaceID] = route.Cost
+			// Find minimum cost route per nexthop
+			minCostRoutes := make(map[uint64]uint64) // FaceID -> Cost
+			for _, route := range routes {
+				cost, ok := minCostRoutes[route.FaceID]
+				if !ok || route.Cost < cost {
+					minCostRoutes[route.FaceID] = route.Cost
+				}
 			}
-		}
 
-		// Add "flattened" set of nexthops
-		for nexthop, cost := range minCostRoutes {
-			FibStrategyTable.InsertNextHopEnc(r.Name, nexthop, cost)
+			// Add "flattened" set of nexthops
+			for nexthop, cost := range minCostRoutes {
+				FibStrategyTable.InsertNextHopEnc(r.Name, nexthop, cost)
+			}
 		}
 	}
 
